@@ -56,12 +56,15 @@ Proof.
 Qed.
 End C16code.
 
-(* both directory constructors build the object of a pair from that pair's own result file and GeneData, in that order *)
-Theorem c16_code_constructed : forall ps, gen_dir_constructed ps = ps /\ gen_regex_constructed ps = ps.
+(* both directory constructors build the object of a pair from that pair's own result file and GeneData, in that order; the reader
+   example of the repository builds its readers through one of them and in no other way *)
+Theorem c16_code_constructed : forall ps, gen_dir_constructed ps = ps /\ gen_regex_constructed ps = ps /\ gen_example_constructed ps = ps.
 Proof.
-  intros ps. unfold gen_dir_constructed, gen_regex_constructed. split.
-  - rewrite <- (map_id ps) at 2. apply map_ext. intros [a b]. reflexivity.
-  - rewrite <- (map_id ps) at 2. apply map_ext. intros [a b]. reflexivity.
+  intros ps. assert (H : gen_dir_constructed ps = ps /\ gen_regex_constructed ps = ps).
+  { unfold gen_dir_constructed, gen_regex_constructed. split.
+    - rewrite <- (map_id ps) at 2. apply map_ext. intros [a b]. reflexivity.
+    - rewrite <- (map_id ps) at 2. apply map_ext. intros [a b]. reflexivity. }
+  destruct H as [H1 H2]. split; [exact H1|]. split; [exact H2|]. unfold gen_example_constructed; first [exact H2 | exact H1].
 Qed.
 
 (* non-vacuity, and the two inputs the seeded changes of this function got wrong: a file without GeneData that is not the
